@@ -698,7 +698,7 @@ PROPS = {
         check_module="C07Check",
         theorems={t: [] for t in ["C07_table_refines", "C07_append_key_least", "C07_set_then_get",
                                   "C07_key_equality_is_value_equality",
-                                  "C07_vm_table_object", "C07_vm_set_in_place_or_append", "C07_vm_table_append",
+                                  "C07_vm_table_object", "C07_vm_set_in_place_or_append", "C07_vm_set_then_get", "C07_vm_table_append",
                                   "C07_vm_key_equality", "C07_vm_init_table", "C07_vm_get_property",
                                   "C07_vm_set_property", "C07_vm_len", "C07_vm_append_table",
                                   "C07_vm_pop_table", "C07_vm_nth_row", "C07_vm_for_each",
